@@ -1079,7 +1079,7 @@ func (p *Policy) DecryptWithFactory(derivationContext, nonce []byte, value strin
 
 		symopts := SymmetricOpts{
 			Convergent:        p.ConvergentEncryption,
-			ConvergentVersion: p.ConvergentVersion,
+			ConvergentVersion: convergentVersion,
 		}
 		for index, rawFactory := range factories {
 			if rawFactory == nil {
